@@ -484,7 +484,14 @@ class Engine:
                 m=re.match(r'^(-?\d+) of (\d+)$',idx)
                 if not m: raise Unsupported('index form '+idx)
                 iv=Int(64,False,int(m.group(1)))
-            if not iv.conc(): raise Unsupported('symbolic index')
+            if not iv.conc():
+                if isinstance(base,VecO) and base.items and all(isinstance(deref(x),Int) and deref(x).conc() for x in base.items) and len(base.items)<=256:
+                    n=len(base.items); first=deref(base.items[0])
+                    if run.branch_bool(Bool(z3.UGE(iv.v,n)),'index_oob'): raise Panic(body.name+': index out of bounds (symbolic)','index')
+                    t=z3.BitVecVal(deref(base.items[n-1]).v,first.w)
+                    for k in range(n-2,-1,-1): t=z3.If(iv.v==k,z3.BitVecVal(deref(base.items[k]).v,first.w),t)
+                    return Ref(Cell(Int(first.w,first.s,z3.simplify(t))))
+                raise Unsupported('symbolic index')
             if isinstance(base,VecO):
                 if iv.v>=len(base.items): raise Panic(body.name+': index out of bounds','index')
                 return Ref(base,iv.v)
@@ -530,6 +537,10 @@ class Engine:
             if not bs: raise Unsupported('promoted not found: '+key)
             return self.eval_const(run,bs[0])
         if s=='log::STATIC_MAX_LEVEL': return Agg('LevelFilter',[],5,'Trace')
+        m=re.search(r'static\(DefId\([^~]*~ [^:]*::(?:[A-Za-z_0-9]+::)*([A-Za-z_0-9]+)\)\)',s)
+        if m:
+            cands=self.const_index.get(m.group(1),[])
+            if len(cands)>=1: return Ref(Cell(self.eval_const(run,cands[0])))
         m=re.match(r'^\{(alloc\d+): &',s)
         if m:
             from . import parse as _p
@@ -602,6 +613,9 @@ class Engine:
                 if isinstance(v,Bool):
                     return Int(w,sg,(1 if v.v else 0) if v.conc() else z3.If(v.v,z3.BitVecVal(1,w),z3.BitVecVal(0,w)))
                 if isinstance(v,Char): return Int(w,sg,v.v)
+                if isinstance(v,Str) and len(v.b)>=1:
+                    if len(v.b)==1: return Int(w,sg,v.b[0] if isinstance(v.b[0],int) else (z3.ZeroExt(w-8,v.b[0]) if w>8 else v.b[0]))
+                    raise Unsupported('integer cast of a symbolic multi-byte character')
                 if isinstance(v,Int):
                     if v.conc(): return Int(w,sg,v.signed_val())
                     if w>v.w: return Int(w,sg,z3.SignExt(w-v.w,v.v) if v.s else z3.ZeroExt(w-v.w,v.v))
@@ -840,6 +854,9 @@ class Engine:
         if isinstance(d,Agg) and d.ty=='Cow': return self.fmt_value(run,kind,d.f[0])
         if isinstance(d,Agg) and self.impl_index.get(('Display',d.ty,'fmt')):
             s=self.display(run,val); return list(s.b),s.taint
+        if isinstance(d,Opaque) and d.kind=='DelayedFormat':
+            from .models import render_delayed
+            return list(render_delayed(self,run,d).encode()),False
         if isinstance(d,Opaque): return list(b'<opaque>'),True
         raise Unsupported('fmt_value '+repr(d)[:60])
 
